@@ -120,6 +120,9 @@ func (p *Proc) apiCall(verb string, res Resource, ns, name string, effect func(a
 	obj, err := effect(t.id)
 	call.Err = err
 	s.notifyCall(call)
+	// the call has taken effect: writes of other actors that happen while the
+	// response is in flight must not be attributed to it
+	s.curCall = nil
 	if err != nil {
 		s.Stats["api.err."+string(apierrors.ReasonForError(err))]++
 	}
